@@ -121,12 +121,41 @@ Theorem C19_cubochoric_point_unit : forall x y z, qnorm2 ROps (cubo_point ROps x
 Proof. exact cubo_point_unit. Qed.
 Print Assumptions C19_cubochoric_point_unit.
 
-(* over the reals the loop discards nothing: (2N)^3 rotations for every N > 0
-   (in floating point N * (L / N) > L happens, e.g. N = 65: known finding) *)
+(* the loop discards nothing: (2N)^3 rotations for every N > 0 *)
 Theorem C19_cubochoric_size : forall N, (0 < N)%Z ->
   length (cubochoric_grid ROps N) = (Z.to_nat (2 * N) * Z.to_nat (2 * N) * Z.to_nat (2 * N))%nat.
 Proof. exact cubochoric_size. Qed.
 Print Assumptions C19_cubochoric_size.
+
+(* ... and this does not hinge on the exact value of step_size = L / N: the three
+   loops keep all (2N)^3 points for EVERY step whose outermost coordinate N * step
+   stays within the guard's tolerance, |N * step| <= L + 1e-8 (in floating point
+   N * (L / N) exceeds L by an ulp for N = 65, 130, 260; with the guard `> L` the
+   layer i = N, all rotations by pi, was dropped: repaired defect) *)
+Theorem C19_cubochoric_size_robust : forall N step, (0 < N)%Z ->
+  IZR N * Rabs step <= semi_edge_length ROps + 1 / 100000000 ->
+  length (cubochoric_loop ROps step N) = (Z.to_nat (2 * N) * Z.to_nat (2 * N) * Z.to_nat (2 * N))%nat.
+Proof. exact cubochoric_loop_size. Qed.
+Print Assumptions C19_cubochoric_size_robust.
+
+(* Haar-Euler grid: the rows Phi = 0 AND Phi = pi belong to the grid, for every
+   azimuth pair of the grid (before the repair the last row was
+   arccos(-1 + 2/half): no rotation with Phi = pi was sampled) *)
+Theorem C19_haar_euler_reaches_poles : forall n a g, (2 <= n)%nat ->
+  In a (linspace ROps (c0 ROps) (twopi ROps) n false) ->
+  In g (linspace ROps (c0 ROps) (twopi ROps) n false) ->
+  In (eu2qu ROps (a, 0, g)) (haar_euler_grid ROps n) /\
+  In (eu2qu ROps (a, PI, g)) (haar_euler_grid ROps n).
+Proof. exact haar_euler_reaches_poles. Qed.
+Print Assumptions C19_haar_euler_reaches_poles.
+
+(* no hole in Phi: every Phi in [0, pi] is within 1 / half in cos of a row of the
+   grid (half of the spacing 2 / half of the cosines), uniformly up to both poles *)
+Theorem C19_haar_euler_beta_covers : forall n Phi, (2 <= n)%nat -> 0 <= Phi <= PI ->
+  exists b, In b (haar_euler_beta ROps n) /\ 0 <= b <= PI /\
+            Rabs (cos b - cos Phi) <= 1 / INR (Nat.div2 n).
+Proof. exact haar_euler_beta_covers. Qed.
+Print Assumptions C19_haar_euler_beta_covers.
 
 (* ==================================================== step counts (exact Q) === *)
 Theorem C19_num_steps : forall (res : Q) even odd, (0 < res)%Q ->
